@@ -161,6 +161,9 @@ pub fn journal_file() -> Option<std::sync::Arc<std::sync::Mutex<std::fs::File>>>
 }
 
 pub fn rss_mb() -> usize {
+    if cfg!(miri) {
+        return 0;
+    }
     if let Ok(s) = std::fs::read_to_string("/proc/self/statm") {
         if let Some(r) = s.split_whitespace().nth(1) {
             if let Ok(p) = r.parse::<usize>() {
